@@ -179,6 +179,9 @@ Definition conv_count : nat -> symbol -> nat * string :=
   fun n s => (S n, "# call " ++ string_of_Z (Z.of_nat n) ++ nl_s ++ opt_str (scode s)).
 (* a converter whose output does not compile (guard class of the build_model fallback finding) *)
 Definition conv_broken : unit -> symbol -> unit * string := stateless (fun _ => "x = (").
+(* a converter whose output contains the template's own field tokens (they must stay as they are) *)
+Definition conv_fields : unit -> symbol -> unit * string :=
+  stateless (fun s => opt_str (scode s) ++ "  # {endogenous} {exogenous} {parameters} {errors} {lags} {leads} {equations} {{x}}").
 (* a converter that returns nothing *)
 Definition conv_empty : unit -> symbol -> unit * string := stateless (fun _ => "").
 
